@@ -174,6 +174,16 @@ Definition regroup (o : obj) : obj :=
 Definition items_of_objs (l : list obj) : list (name * obj) :=
   fold_left (fun acc o => assoc_set acc (name_of_uid (o_comp o) (o_uid o)) (regroup o)) l [].
 
+(* the second call of prepare(), made when the tag or the mode found under the lock differ from the prediction *)
+Definition put_prep (b : body) (ct : ctype) (permission parent_permission : bool) (t : ptag) (wwc : bool) (p1 : prep) : prep :=
+  match p1 with
+  | PRaise => PRaise
+  | PRes ptag1 pwwc1 pitems1 =>
+      if negb (ptag_eqb t ptag1) || negb (obool_eqb pwwc1 wwc)
+      then prepare b ct permission parent_permission t (Some wwc)
+      else p1
+  end.
+
 Definition do_put (cfg : config) (pol : policy) (s : store) (p : path) (ct : ctype) (b : body)
                   (im : cond) (inm : bool) : store * response :=
   let pm := pol p in let ppm := pperms_of pol p in
@@ -205,10 +215,7 @@ Definition do_put (cfg : config) (pol : policy) (s : store) (p : path) (ct : cty
                       end in
       if im_fails then (s, (S412, PNone)) else
       if exists_ && inm then (s, (S412, PNone)) else
-      let pr := if negb (ptag_eqb t ptag1) || negb (obool_eqb pwwc1 wwc)
-                then prepare b ct permission parent_permission t (Some wwc)
-                else PRes ptag1 pwwc1 pitems1 in
-      match pr with
+      match put_prep b ct permission parent_permission t wwc (PRes ptag1 pwwc1 pitems1) with
       | PRaise => (s, (S500, PNone))
       | PRes t2 _ None => (s, (S400, PNone))
       | PRes t2 _ (Some objs) =>
@@ -280,10 +287,8 @@ Definition do_move (pol : policy) (s : store) (p : path) (dest_remote dest_outsi
         | NNothing => (s, (S409, PNone))
         | NItem _ _ => (s, (S500, PNone))                 (* assert isinstance(to_collection, BaseCollection) *)
         | NColl to_c =>
-          match c_tag from_c with
-          | TNone => (s, (S403F, PNone))
-          | ft =>
-            if negb (tag_eqb ft (c_tag to_c)) then (s, (S403F, PNone)) else
+          if tag_eqb (c_tag from_c) TNone then (s, (S403F, PNone)) else
+            if negb (tag_eqb (c_tag from_c) (c_tag to_c)) then (s, (S403F, PNone)) else
             let to_exists := match to_item with NItem _ _ => true | _ => false end in
             if to_exists && negb overwrite then (s, (S412, PNone)) else
             let conflict := match to_item with
@@ -299,7 +304,6 @@ Definition do_move (pol : policy) (s : store) (p : path) (dest_remote dest_outsi
                 (s2, ((if to_exists then S204 else S201), PNone))
             | None => (s, (S500, PNone))
             end
-          end
         end
       end
     end
